@@ -418,8 +418,7 @@ def shared_section_parser(res, ctx, rng):
         datas = []
         for d in range(n_dumps):
             blocks = [(wire.TAG_LOG_EVENTS, plistlib.dumps({'Events': raws[d]}, fmt=plistlib.FMT_BINARY)),
-                      (wire.TAG_LOG_STRINGS, plistlib.dumps({'StringIndex': {t: i for i, t in tables[d].items()}},
-                                                            fmt=rng.choice((plistlib.FMT_BINARY, plistlib.FMT_XML))))]
+                      (wire.TAG_LOG_STRINGS, logs.dumps_index({'StringIndex': {t: i for i, t in tables[d].items()}}, rng))]
             if rng.random() < 0.5:
                 blocks.reverse()
             recs = gen.gen_records(rng, rng.choice((0, 0, 1, 3))) if rng.random() < 0.5 else []
@@ -475,6 +474,7 @@ def run(ctx):
     res.notes['process_time_zone'] = zone
     res.count('shards_in_zone_' + zone.split(',')[0])
     rng = ctx.rng
+    logs.WITH_LINE_BREAKS[0] = True       # fields are compared, not printed lines
     subsets_workload(res, ctx, rng)
     if ctx.shard == 0:
         # the boundary instants (DST transitions of every zone among them) under EVERY process zone, not only this shard's
